@@ -240,9 +240,20 @@ impl MemReader {
         // I don't think there would ever be a case where we would not read on word boundaries, but just in case...
         let last = chunks.into_remainder();
         if !last.is_empty() {
-            let word = nix::sys::ptrace::read(pid, (src + offset) as *mut std::ffi::c_void)
+            // PTRACE_PEEKDATA always transfers a whole word. Prefer the word that _ends_ at
+            // the end of the requested range, so that we don't touch (possibly unmapped)
+            // memory past it; fall back to the word that starts at the tail.
+            let word_size = std::mem::size_of::<usize>();
+            let len = last.len();
+            let peek = |addr: usize| nix::sys::ptrace::read(pid, addr as *mut std::ffi::c_void);
+            let (word, skip) = (src + offset + len)
+                .checked_sub(word_size)
+                .ok_or(nix::Error::EFAULT)
+                .and_then(peek)
+                .map(|word| (word, word_size - len))
+                .or_else(|_| peek(src + offset).map(|word| (word, 0)))
                 .map_err(|err| (err, offset))?;
-            last.copy_from_slice(&word.to_ne_bytes()[..last.len()]);
+            last.copy_from_slice(&word.to_ne_bytes()[skip..skip + len]);
         }
 
         Ok(dst.len())
